@@ -49,6 +49,27 @@ def _solve_one(ob, timeout_ms, seed):
     last = {"verdict": "unknown", "reason": "portfolio exhausted"}
     portfolio = PORTFOLIO
     ground = not _has_quantifier(ob.hyps + [ob.goal])
+    pref = getattr(ob, "prefer", "") or ""
+    if pref.startswith("z3-euf(strings abstracted)") and "cone" not in pref and "quantifier-free" not in pref:
+        # learnt on the unchanged tree: this obligation was found by a late portfolio entry - try that entry first
+        opts_ = {}
+        for kv in pref[len("z3-euf(strings abstracted)"):].replace("(peeled)", "").strip().split(","):
+            k_, _, v_ = kv.strip().partition("=")
+            if k_ == "smt.mbqi":
+                opts_[k_] = v_ == "True"
+            elif k_ == "smt.qi.eager_threshold":
+                opts_[k_] = float(v_)
+        qa_ = abstract_query(ob.hyps, ob.goal)
+        if qa_ is not None:
+            s = z3.Solver()
+            s.set("timeout", max(1000, int(timeout_ms * 0.4)))
+            if seed:
+                s.set("random_seed", seed)
+            for k_, v_ in opts_.items():
+                s.set(k_, v_)
+            s.add(*qa_)
+            if s.check() == z3.unsat:
+                return {"verdict": "proved", "time": time.time() - t_start, "backend": "z3-euf(strings abstracted) " + ",".join(f"{k_}={v_}" for k_, v_ in opts_.items())}
     rsyms = _rec_symbols(ob.goal)
     if rsyms:
         # the goal speaks about recursive specification functions: first try with the hypotheses that mention one of them only (lemma instances,
@@ -512,7 +533,7 @@ def _discharge_live(obligations, pending, timeout_s, seed, progress):
     results = [None] * len(obligations)
     pending = list(pending)
     running = {}  # pid -> (idx, fd, deadline, t0)
-    hard = timeout_s + 5.0
+    hard = timeout_s * 1.4 + 5.0  # the preferred-entry attempt may add up to 40 % on top of the portfolio's shares
     while pending or running:
         while pending and len(running) < NPROC:
             idx = pending.pop(0)
